@@ -225,7 +225,8 @@ def _policy(ip, dns, node, dns_ref, req_host, req_node):
 
 def c15c(tree, ob):
     fv = FuncView(tree, SESS, 'Messenger.merge_session_params')
-    raises = [r for r in walk_local(fv.func) if isinstance(r, ast.Raise) and r.exc is not None and 'TerminateError' in src(r.exc)]
+    # (the policy decision, not the conversion of a decoding error inside an except arm)
+    raises = [r for r in walk_local(fv.func) if isinstance(r, ast.Raise) and r.exc is not None and 'TerminateError' in src(r.exc) and enclosing(r, (ast.ExceptHandler,)) is None]
     r = one(raises, 'TerminateError raise in merge_session_params', ob)
     if 'CONTACT_FAILURE' not in src(r.exc):
         ob.violate(SESS, fv.qual, src(r), 'authentication failure does not terminate with contact-failure', r)
